@@ -60,8 +60,8 @@ inductive PanicSite where
   | queryTypeNotObject
   /-- `panic!("too many nested lists")` in `Type::from_type` (base.rs:270). -/
   | tooManyListLevels
-  /-- `unimplemented!("enum values are not currently supported")` in `is_valid_value` (base.rs:380). -/
-  | enumValue
+  -- (history: `enumValue`, the `unimplemented!("enum values are not currently supported")` of
+  -- `is_valid_value`, base.rs:380, was a site here until the repair of F-C19-1 / F-14)
   /-- index / `unwrap` sites of `get_field_origins` and `check_ambiguous_field_origins`
   (mod.rs:494, 769, 781, 799, 805) and the model's loop fuel (line 0); proved unreachable. -/
   | internal (line : Nat)
@@ -209,27 +209,23 @@ def isScalarOnlySubtype : PTy → PTy → Bool
   | _, _ => false
 
 mutual
-/-- `Type::is_valid_value` (base.rs:343–384). -/
-def isValidValue (ty : PTy) : Value → Outcome Bool
-  | .null => .ok ty.nullable
-  | .int64 _ => .ok (!ty.isList && ty.base == "Int")
-  | .uint64 _ => .ok (!ty.isList && ty.base == "Int")
-  | .float64 _ => .ok (!ty.isList && ty.base == "Float")
-  | .string _ => .ok (!ty.isList && ty.base == "String")
-  | .boolean _ => .ok (!ty.isList && ty.base == "Boolean")
+/-- `Type::is_valid_value` (base.rs:343–384): total; an enum constant is valid for no type. -/
+def isValidValue (ty : PTy) : Value → Bool
+  | .null => ty.nullable
+  | .int64 _ => !ty.isList && ty.base == "Int"
+  | .uint64 _ => !ty.isList && ty.base == "Int"
+  | .float64 _ => !ty.isList && ty.base == "Float"
+  | .string _ => !ty.isList && ty.base == "String"
+  | .boolean _ => !ty.isList && ty.base == "Boolean"
   | .list l =>
     match ty with
     | list inner _ => allValid inner l
-    | named _ _ => .ok false
-  | .enum _ => .panic .enumValue
-/-- `contents.iter().all(|inner| content_type.is_valid_value(inner))`: stops at the first `false`. -/
-def allValid (ty : PTy) : List Value → Outcome Bool
-  | [] => .ok true
-  | v :: vs =>
-    match isValidValue ty v with
-    | .ok true => allValid ty vs
-    | .ok false => .ok false
-    | .panic s => .panic s
+    | named _ _ => false
+  | .enum _ => false
+/-- `contents.iter().all(|inner| content_type.is_valid_value(inner))`. -/
+def allValid (ty : PTy) : List Value → Bool
+  | [] => true
+  | v :: vs => isValidValue ty v && allValid ty vs
 end
 
 end PTy
@@ -431,10 +427,8 @@ def checkDefault (t : TypeDef) (f : Field) (a : Arg) : Outcome (List SchemaErr) 
     match PTy.fromType a.ty with
     | .panic s => .panic s
     | .ok pty =>
-      match pty.isValidValue v with
-      | .panic s => .panic s
-      | .ok true => .ok []
-      | .ok false => .ok [.invalidDefaultValue t.name f.name a.name a.ty]
+      if pty.isValidValue v then .ok []
+      else .ok [.invalidDefaultValue t.name f.name a.name a.ty]
 
 def checkFieldInvariants (vts : List TypeDef) (root : Name) (t : TypeDef) (f : Field) :
     Outcome (List SchemaErr) :=
@@ -1023,20 +1017,9 @@ structure ValidSchema (doc : Doc) : Prop where
 
 def PTy.shallow (t : PTy) : Bool := t.depth ≤ 30
 
-mutual
-def Value.hasEnum : Value → Bool
-  | .enum _ => true
-  | .list l => Value.anyEnum l
-  | _ => false
-def Value.anyEnum : List Value → Bool
-  | [] => false
-  | v :: vs => Value.hasEnum v || Value.anyEnum vs
-end
-
-def Arg.clean (a : Arg) : Bool :=
-  a.ty.shallow && match a.default with
-    | some (.val v) => !Value.hasEnum v
-    | _ => true
+/-- (History: until the repair of F-C19-1 this also required the default value to contain no enum
+constant — `is_valid_value` hit `unimplemented!` on it.) -/
+def Arg.clean (a : Arg) : Bool := a.ty.shallow
 
 def Field.clean (f : Field) : Bool := f.ty.shallow && f.args.all Arg.clean
 
@@ -1047,8 +1030,8 @@ def nodupNames : List Name → Bool
 /-- Sufficient (syntactic, decidable) condition excluding every known panic trigger of `Schema::new`:
 exactly one `schema` block; its query type is a defined object type; no definition re-uses a built-in
 scalar name; directive names and custom scalar names are distinct; no `enum`/`union`/`input`
-definitions; no field or parameter type has more than 30 list levels; no default value contains an
-enum constant. -/
+definitions; no field or parameter type has more than 30 list levels.  (An enum constant in a default
+value was a trigger until the repair of F-C19-1; it is an ordinary invalid default value now.) -/
 def NoKnownSchemaTrigger (doc : Doc) : Bool :=
   (match doc.schemaBlocks with
     | [q] => (doc.types.find? (fun t => t.name == q)).any (fun t => !t.isInterface)
